@@ -25,6 +25,14 @@ def stage_monitor(ctx):
                 ctx.rng, 2 * cmd.spec.get('count', 10), ctx.deep)[:3]):
             fr = R.valid_frame(cmd, pl)
             frames += [('valid', fr)] + R.mutations(fr, ctx.rng, ctx.deep)
+        if cmd.spec['kind'] == 'aa55':
+            for pl in R.AA55_BOUNDARY_PAYLOADS:
+                fr = R.valid_frame(cmd, pl)
+                frames.append(('valid-boundary', fr))
+                if fr:
+                    bad = bytearray(fr); bad[-1] ^= 0x01; frames.append(('boundary-bad-checksum', bytes(bad)))
+                    if len(fr) > 9:
+                        flip = bytearray(fr); flip[8] ^= 0x40; frames.append(('boundary-payload-flip', bytes(flip)))
         # answers to OTHER commands (foreign function / register / count)
         for other in R.commands(ctx.rng, False)[:40:3]:
             if other.spec['kind'] == cmd.spec['kind']:
